@@ -680,7 +680,7 @@ def _widths_mixed(T, V, quick):
     R = reachable(T, V)
     ws = {1, 2, 3, 5, R, R + 1, 25}
     if not quick:
-        ws |= {4, 7, 9, 12}
+        ws |= {4, 9}
     return sorted(w for w in ws if w >= 1)
 
 
@@ -893,13 +893,13 @@ def run_bounded(ctx):
     if _wanted(ctx, "C05.search.batch"):
         ctx.bounded("C05.search.batch", check_search_batch, cases_batch(ctx),
                     bound="V<=2, T<=%d, N in {2,3}, every lens vector in {0..T}^N, widths {1,2,3,5,R,R+1,25%s}, %d seeded Gaussian score tensors each%s" % (
-                        3 if q else 4, "" if q else ",4,7,9,12", 2 if q else 3, "" if q else "; plus seeded random N<=5, V<=3, T<=5, float32/float64"),
+                        3 if q else 4, "" if q else ",4,9", 2 if q else 3, "" if q else "; plus seeded random N<=5, V<=3, T<=5, float32/float64"),
                     text="each element of a ragged batch obeys the element contract on its own valid frames and equals the search of logits[:lens[n], n] alone",
                     nontrivial=lambda c: len(set(c["lens"])) > 1, chunk=16, functions=[M_FWD, M_ADV])
     if _wanted(ctx, "C05.search.fusion"):
         ctx.bounded("C05.search.fusion", check_fusion, cases_fusion(ctx),
                     bound="V<=2, T<=%d, beta in {0,.3,1} x {shallow fusion, valid mixture}, stateful table LM with a per-element context; grid tables with T*V<=%d, seeded tables, batches of 2 with every lens pair; widths {1,2,3,5,R,R+1,25%s}%s" % (
-                        3 if q else 4, 4 if q else 6, "" if q else ",4,7,9,12", "" if q else "; plus seeded random beta, V<=3, T<=5, N<=4"),
+                        3 if q else 4, 4 if q else 6, "" if q else ",4,9", "" if q else "; plus seeded random beta, V<=3, T<=5, N<=4"),
                     text="fused search: masses equal the recursion/path summation with the docstring's fused extension score; LM state threaded per prefix and per batch element (a state-only LM sees the right history and context)",
                     nontrivial=lambda c: c["fusion"]["beta"] > 0 and c["T"] >= 2, chunk=16, functions=[M_FWD, M_ADV])
     if _wanted(ctx, "C05.advance.step"):
